@@ -7,6 +7,8 @@
 (* with the token lists the rule prescribes.                               *)
 (* First (environment variable LEX_FIRST) = 0: every text; = c: only the   *)
 (* texts that start with symbol c (chunking of the thorough tier).         *)
+(* MC_Lex_sim.cfg (MaxLen = 12) is run with `-simulate`: random texts of   *)
+(* 5..12 symbols (every successor of every state of a random trace).       *)
 (***************************************************************************)
 EXTENDS PenneLex, Json, IOUtils
 
@@ -35,7 +37,7 @@ TilesOK == LET u == Utf8Valid(s)
                a == IF u THEN LexAll("alpha", s) ELSE <<>>
            IN /\ Tiles("delta", s, d)
               /\ (u => Tiles("alpha", s, a))
-              /\ PrintT(<<"CASE", ToJson([s |-> s, u |-> u,
+              /\ PrintT(<<"CASE", ToJson([s |-> s, n |-> n, u |-> u,
                                           d |-> Items(SelectSeq(d, NotComment)),
                                           a |-> Items(SelectSeq(a, NotComment))])>>)
 =============================================================================
